@@ -93,6 +93,7 @@ spec fn min_inv(d: DFA, p: Seq<ISet<u32>>, pt: ISet<SetId>, wl: ISet<SetId>) -> 
 }
 
 /// the states with an a-transition of the image into the set g
+#[verifier::opaque]
 spec fn pre_img(im: Seq<Transition>, n: int, g: ISet<u32>, a: InpId, x: u32) -> bool {
     exists|m: int| 0 <= m < n && m < im.len() && g.contains((#[trigger] im[m]).to) && im[m].input == a && im[m].from == x
 }
@@ -164,7 +165,7 @@ proof fn lemma_split(d: DFA, p0: Seq<ISet<u32>>, p1: Seq<ISet<u32>>, pt0: ISet<S
         min_inv(d, p1, pt1, wl1), hop_ok(d, p1, pt1, wl1, cur),
         forall|g: ISet<u32>| pure(p0, pt0, g) ==> #[trigger] pure(p1, pt1, g),
         pt1.contains(c1) && pt1.contains(c2) && !pt1.contains(c),
-        forall|k: SetId| pt0.contains(k) && k != c ==> #[trigger] pt1.contains(k) && blk(p1, k) == blk(p0, k) && k != c1 && k != c2,
+        forall|k: SetId| #![trigger pt0.contains(k)] #![trigger pt1.contains(k)] pt0.contains(k) && k != c ==> pt1.contains(k) && blk(p1, k) == blk(p0, k) && k != c1 && k != c2,
         forall|k: SetId| #[trigger] pt1.contains(k) ==> k == c1 || k == c2 || (pt0.contains(k) && k != c),
 {
     reveal(is_split);
@@ -181,7 +182,7 @@ proof fn lemma_split(d: DFA, p0: Seq<ISet<u32>>, p1: Seq<ISet<u32>>, pt0: ISet<S
     assert(c1 != c2);
     assert(c1 != c) by { if c1 == c { assert(blk(p1, c1) == blk(p0, c)); assert(blk(p1, c1).contains(xb)); } }
     assert(c2 != c) by { if c2 == c { assert(blk(p1, c2) == blk(p0, c)); assert(blk(p1, c2).contains(xa)); } }
-    assert forall|k: SetId| pt0.contains(k) && k != c implies #[trigger] pt1.contains(k) && blk(p1, k) == blk(p0, k) && k != c1 && k != c2 by {
+    assert forall|k: SetId| #![trigger pt0.contains(k)] #![trigger pt1.contains(k)] pt0.contains(k) && k != c implies pt1.contains(k) && blk(p1, k) == blk(p0, k) && k != c1 && k != c2 by {
         assert(k.0 < p0.len());
         assert(blk(p1, k) == blk(p0, k));
         if k == c1 { assert(blk(p0, k).contains(xa)); }
@@ -443,7 +444,7 @@ proof fn lemma_split_rest(p0: Seq<ISet<u32>>, p1: Seq<ISet<u32>>, pt0: ISet<SetI
         0 <= i3 < ov.len(), ov[i3] == c,
         forall|m1: int, m2: int| 0 <= m1 < m2 < ov.len() ==> #[trigger] ov[m1] != #[trigger] ov[m2],
         is_split(p0, p1, c, c1, c2, f),
-        forall|k: SetId| pt0.contains(k) && k != c ==> #[trigger] pt1.contains(k) && blk(p1, k) == blk(p0, k) && k != c1 && k != c2,
+        forall|k: SetId| #![trigger pt0.contains(k)] #![trigger pt1.contains(k)] pt0.contains(k) && k != c ==> pt1.contains(k) && blk(p1, k) == blk(p0, k) && k != c1 && k != c2,
         forall|k: SetId| #[trigger] pt1.contains(k) ==> k == c1 || k == c2 || (pt0.contains(k) && k != c),
         forall|m: int| i3 <= m < ov.len() ==> pt0.contains(#[trigger] ov[m]) && !blk(p0, ov[m]).disjoint(f),
         forall|k: SetId| #[trigger] pt0.contains(k) ==> pure_blk(blk(p0, k), f) || exists|m: int| i3 <= m < ov.len() && #[trigger] ov[m] == k,
@@ -490,6 +491,7 @@ proof fn lemma_pre_img_step(im: Seq<Transition>, n: int, g: ISet<u32>, a: InpId,
     requires 0 <= n < im.len()
     ensures pre_img(im, n + 1, g, a, x) == (pre_img(im, n, g, a, x) || (g.contains(im[n].to) && im[n].input == a && im[n].from == x))
 {
+    reveal(pre_img);
     if pre_img(im, n + 1, g, a, x) {
         let m = choose|m: int| 0 <= m < n + 1 && m < im.len() && g.contains((#[trigger] im[m]).to) && im[m].input == a && im[m].from == x;
         if m < n { assert(pre_img(im, n, g, a, x)); }
@@ -509,6 +511,8 @@ proof fn lemma_pre_is_nxt(d: DFA, im: Seq<Transition>, sl: Seq<Transition>, lo: 
         !gs.contains(DEAD_STATE_ID),
     ensures pre_img(sl, sl.len() as int, gs, a, x) == gs.contains(nxt(d, x, a))
 {
+    reveal(pre_img);
+    reveal(is_exact_range);
     reveal(image_ok);
     if pre_img(sl, sl.len() as int, gs, a, x) {
         let m = choose|m: int| 0 <= m < sl.len() && m < sl.len() && gs.contains((#[trigger] sl[m]).to) && sl[m].input == a && sl[m].from == x;
@@ -527,6 +531,7 @@ proof fn lemma_pre_is_nxt(d: DFA, im: Seq<Transition>, sl: Seq<Transition>, lo: 
 verus! {
 
 /// the map collected so far holds, per symbol, the sources of the first n transitions into gs
+#[verifier::opaque]
 spec fn pre_ok(gt: Map<InpId, RoaringBitmap>, im: Seq<Transition>, n: int, gs: ISet<u32>) -> bool {
     forall|a: InpId, x: u32| #![trigger gt[a]@.contains(x)] #![trigger pre_img(im, n, gs, a, x)]
         (gt.contains_key(a) && gt[a]@.contains(x)) <==> pre_img(im, n, gs, a, x)
@@ -536,12 +541,16 @@ proof fn lemma_pre_start(gt: Map<InpId, RoaringBitmap>, im: Seq<Transition>, gs:
     requires gt == Map::<InpId, RoaringBitmap>::empty()
     ensures pre_ok(gt, im, 0, gs)
 {
+    reveal(pre_img);
+    reveal(pre_ok);
 }
 
 proof fn lemma_pre_skip(gt: Map<InpId, RoaringBitmap>, im: Seq<Transition>, n: int, gs: ISet<u32>)
     requires pre_ok(gt, im, n, gs), 0 <= n < im.len(), !gs.contains(im[n].to)
     ensures pre_ok(gt, im, n + 1, gs)
 {
+    reveal(pre_img);
+    reveal(pre_ok);
     assert forall|a: InpId, x: u32| #![trigger gt[a]@.contains(x)] #![trigger pre_img(im, n + 1, gs, a, x)]
         (gt.contains_key(a) && gt[a]@.contains(x)) <==> pre_img(im, n + 1, gs, a, x) by {
         lemma_pre_img_step(im, n, gs, a, x);
@@ -558,6 +567,8 @@ proof fn lemma_pre_add(gt0: Map<InpId, RoaringBitmap>, gt1: Map<InpId, RoaringBi
         forall|j: InpId| j != im[n].input && gt0.contains_key(j) ==> #[trigger] gt1[j] == gt0[j],
     ensures pre_ok(gt1, im, n + 1, gs)
 {
+    reveal(pre_img);
+    reveal(pre_ok);
     let k = im[n].input;
     assert forall|a: InpId, x: u32| #![trigger gt1[a]@.contains(x)] #![trigger pre_img(im, n + 1, gs, a, x)]
         (gt1.contains_key(a) && gt1[a]@.contains(x)) <==> pre_img(im, n + 1, gs, a, x) by {
@@ -633,6 +644,16 @@ proof fn lemma_image(d: DFA, ts: Seq<Transition>, out: Seq<Transition>, rowk: Se
         let k = choose|k: int| 0 <= k < ts.len() && ts[k] == out[m];
         assert(img_entry(d, ts[k]));
     }
+}
+
+} // verus!
+verus! {
+
+proof fn lemma_pre_get(gt: Map<InpId, RoaringBitmap>, im: Seq<Transition>, n: int, gs: ISet<u32>, a: InpId, x: u32)
+    requires pre_ok(gt, im, n, gs)
+    ensures (gt.contains_key(a) && gt[a]@.contains(x)) == pre_img(im, n, gs, a, x)
+{
+    reveal(pre_ok);
 }
 
 } // verus!
